@@ -35,7 +35,7 @@ pub fn params_for(check: &str, tier: Tier) -> Params {
             f.in_list = false;
             f.bools = false;
             f.cross_join = false;
-            Params { n_dbs: tier.pick(24, 400), per_db: tier.pick(25, 40), sizes: vec![SizeClass::Small, SizeClass::Small, SizeClass::Medium], feats: f, layouts: vec![Layout::MemSplit, Layout::Parquet], reps: 1, agg_share: 4, max_rels: 2 }
+            Params { n_dbs: tier.pick(16, 400), per_db: tier.pick(20, 40), sizes: vec![SizeClass::Small, SizeClass::Small, SizeClass::Medium], feats: f, layouts: vec![Layout::MemSplit, Layout::Parquet], reps: 1, agg_share: 4, max_rels: 2 }
         }
         // threads / scheduling: medium tables in many batches, fan-out shapes
         "C07" => {
